@@ -65,7 +65,14 @@ TplThorough == TplQuick \cup {
   T("padded",       0,  2, TRUE,  <<SN(<<Host(NameA)>>), SV, KS(32), Pad(200)>>, NameA),
   T("other-only",   0,  2, TRUE,  <<SN(<<Other(NameX)>>), ALPN>>, <<>>)                          \* a server_name list without a host_name
 }
-Templates == IF Level = 1 THEN TplQuick ELSE TplThorough
+\* hellos that fill a TLS record up to its limit: record payload of exactly z bytes (2^14 = 16384 is
+\* the maximum of TLSPlaintext.length), reached with a padding extension
+MaxBase(n) == T("max", 0, 1, TRUE, <<SN(<<Host(NameA)>>), Pad(n)>>, NameA)
+TMax(z) == [MaxBase(z - 69) EXCEPT !.id = "max-" \o ToString(z)]      \* 69 = record payload of MaxBase(0)
+BigSizes == IF Level = 1 THEN {16380, 16384} ELSE {16379, 16380, 16383, 16384}
+TplBig == { TMax(z) : z \in BigSizes }
+IsBig(m) == m \in TplBig
+Templates == (IF Level = 1 THEN TplQuick ELSE TplThorough) \cup TplBig
 
 -----------------------------------------------------------------------------
 \* corruption: [kind, f, i, how, at, f2, i2, how2]
@@ -155,7 +162,13 @@ HdrCombos(n) == LET rl == n - 5  hl == n - 9 IN
     { <<r, h>> : r \in {0, 1, 3, 4, 5, rl - 1, rl, rl + 1, 16383, 16384, 16385, 65535},
                  h \in {0, 1, hl - 1, hl, hl + 1, rl - 4, rl - 3, 16380, 16381, 65536, 16777215} } \ {<<rl, hl>>}
 
+\* the full-record hellos get the corruptions that concern the record boundary only (16 K bytes per case)
+CorrsBig(m) ==
+    LET n == Len(Full(NoCorr, m)) IN
+    {NoCorr} \cup { C("len", f, 0, h, 0) : f \in {"rec", "hs"}, h \in {"minus", "plus"} }
+    \cup { C("trunc", "", 0, "", k) : k \in {n - 1, n - 2} }
 CorrsOf(m) ==
+    IF IsBig(m) THEN CorrsBig(m) ELSE
     LET n == Len(Full(NoCorr, m)) IN
     {NoCorr}
     \cup { C("len", f[1], f[2], h, 0) : f \in LenFields(m), h \in Hows }
